@@ -9,7 +9,7 @@ from ..core import Clause, Enum, Violation, guard
 PROPERTY = "C15"
 LEVEL = "exploration"
 RULE = ("every BenchmarkFunction subclass of benchmark_functions / benchmark_robust x the dimensions its constructor "
-        "accepts (1..6 and 10; Michalewicz 2, 5, 10; fixed-dimension classes as they are); points: uniform in the box, "
+        "accepts (1..6, 10, 16 and 25; Michalewicz 2, 5, 10; fixed-dimension classes as they are); points: uniform in the box, "
         "corners and faces, lattice points (integers, multiples of pi/2), the documented optimum +- small perturbations "
         "clipped to the box, points projected onto the constraint surface sum x^2 = 1 for EqualityConstr; coordinates "
         "as Python floats or numpy float64; guided tier: SciPy local minimisers (L-BFGS-B, Nelder-Mead, Powell) "
@@ -20,12 +20,12 @@ RULE = ("every BenchmarkFunction subclass of benchmark_functions / benchmark_rob
         "local search")
 ASSUMPTIONS = ["tolerance 1e-3 absolute (the documented constants carry 4-5 significant digits)",
                "clause B is a global-optimisation claim: random + local search + dense low-dimensional scans can miss a "
-               "narrow basin; dimensions are capped at 10",
+               "narrow basin; dimensions are capped at 25",
                "XinSheYang3 draws random weights per call: every draw is checked"]
 
 GENERIC = ["Rosenbrock", "Ackley", "Sphere", "Schwefel", "ModifiedEasom", "EqualityConstr", "Griewank", "Perm",
            "Rastrigin", "Zakharov", "XinSheYang", "XinSheYang2", "XinSheYang3", "AlpineFunction"]
-DIMS = [1, 2, 3, 4, 5, 6, 10]
+DIMS = [1, 2, 3, 4, 5, 6, 10, 16, 25]
 FIXED = ["SixHump", "Schubert", "Booth", "GramacyLee", "Synthetic1D", "Synthetic2D", "Synthetic5D", "Synthetic10D"]
 
 
@@ -117,7 +117,7 @@ def clip(x, box):
 def point_cases(draw):
     ci = draw(st.sampled_from(list(range(len(CONFIGS)))))
     kind = draw(st.sampled_from(["uniform", "uniform", "corner", "lattice", "optimum", "optimum", "sphere"]))
-    n = 10
+    n = 10      # coordinates beyond the 10th reuse these draws cyclically
     t = [draw(st.floats(0.0, 1.0)) for _ in range(n)]
     pick = [draw(st.integers(0, 7)) for _ in range(n)]
     eps = draw(st.sampled_from([0.0, 1e-9, 1e-6, 1e-4, 1e-3, 1e-2]))
